@@ -130,6 +130,56 @@ pub fn fam_shadow(_cfg: &FunCfg, sink: &mut FunSink) {
             }
         }
     }
+    // a shadowing binder that is live across a *branching scrutinee / destructee* (the continuation
+    // of the branching term is then a case / destructor, which is shared through a compiler-generated
+    // variable), and nested labels around a cocase (compiler-generated return covariables)
+    for name in ["x", "a", "y", "x0", "a0", "x1"] {
+        for shape in 0..8 {
+            sink.offer(move || {
+                let nm = name;
+                let (fparams, body): (Vec<(String, Ty)>, T) = match shape {
+                    0 => (
+                        vec![(nm.into(), Ty::Int), ("l".into(), Ty::List)],
+                        let_(nm, Ty::Int, op(var(nm), "+", lit(1)), case_list(T::Paren(Box::new(ifz("==", var(nm), var("l"), ctor("Cons", vec![lit(7), var("l")])))), var(nm), "h", "t", op(var("h"), "+", var(nm)))),
+                    ),
+                    1 => (
+                        vec![(nm.into(), Ty::Int), ("l".into(), Ty::List)],
+                        let_(nm, Ty::Int, op(var(nm), "*", lit(2)), ap(T::Paren(Box::new(ifz("==", var(nm), new_fun("q", op(var("q"), "+", lit(1))), new_fun("q", op(var("q"), "*", lit(3)))))), var(nm))),
+                    ),
+                    2 => (
+                        vec![(nm.into(), Ty::Int), ("l".into(), Ty::List)],
+                        case_list(T::Paren(Box::new(case_list(var("l"), ctor("Nil", vec![]), nm, "t", var("t")))), var(nm), nm, "t", op(var(nm), "*", lit(10))),
+                    ),
+                    3 => (
+                        vec![(nm.into(), Ty::Int), ("l".into(), Ty::List)],
+                        let_(nm, Ty::Int, op(var(nm), "+", lit(5)), let_("r", Ty::Int, case_list(T::Paren(Box::new(ifz("<", var(nm), ctor("Nil", vec![]), var("l")))), lit(0), nm, "t", var(nm)), op(var("r"), "+", var(nm)))),
+                    ),
+                    4 => (
+                        vec![("n".into(), Ty::Int), ("l".into(), Ty::List)],
+                        label(nm, label(nm, op(ap(new_fun("q", ifz("==", var("q"), goto(nm, lit(50)), op(var("q"), "+", lit(1)))), var("n")), "+", lit(100)))),
+                    ),
+                    5 => (
+                        vec![("n".into(), Ty::Int), ("l".into(), Ty::List)],
+                        label(nm, op(label(nm, ap(T::Paren(Box::new(ifz("==", var("n"), new_fun("q", goto(nm, var("q"))), new_fun("q", op(var("q"), "*", lit(2)))))), op(var("n"), "+", lit(3)))), "+", lit(1000))),
+                    ),
+                    6 => (
+                        vec![(nm.into(), Ty::Int), ("l".into(), Ty::List)],
+                        let_(nm, Ty::Int, op(var(nm), "-", lit(1)), let_(nm, Ty::Int, op(var(nm), "-", lit(1)), op(call("sum", vec![T::Paren(Box::new(ifz("==", var(nm), var("l"), ctor("Nil", vec![]))))]), "+", var(nm)))),
+                    ),
+                    _ => (
+                        vec![(nm.into(), Ty::Int), ("l".into(), Ty::List)],
+                        let_("f", Ty::Fun, new_fun(nm, let_(nm, Ty::Int, op(var(nm), "+", lit(1)), case_list(T::Paren(Box::new(ifz("==", var(nm), var("l"), ctor("Nil", vec![])))), var(nm), "h", "t", op(var("h"), "*", var(nm))))), op(ap(var("f"), var(nm)), "+", ap(var("f"), lit(0)))),
+                    ),
+                };
+                let f = FunDef { name: "f".into(), params: fparams, ret: Ty::Int, body };
+                let main = main_def(
+                    &["n", "m"],
+                    print(true, call("f", vec![var("n"), ctor("Cons", vec![var("m"), ctor("Cons", vec![lit(11), ctor("Nil", vec![])])])]), print(true, call("f", vec![var("m"), ctor("Nil", vec![])]), lit(0))),
+                );
+                FunCase { name: format!("shadow/across/{shape}/{nm}"), src: program(&[f, main]), inputs: vec![vec![0, 1], vec![5, 7], vec![-1, 0], vec![1, -1]], sequenced: true }
+            });
+        }
+    }
     // covariable shadowing: outer label / covariable parameter vs inner label of the same name
     for outer in ["a", "a0", "k"] {
         for inner in ["a", "a0", "k"] {
@@ -390,6 +440,8 @@ pub fn fam_codata(_cfg: &FunCfg, sink: &mut FunSink) {
         ("obj3", "codata Obj { m0: i64, m1(a: i64): i64, m3(a: i64, b: i64, c: i64): i64 }\ndef main(n: i64): i64 { let o: Obj = new { m0 => n, m1(a) => a + n, m3(a, b, c) => ((a * 100) + (b * 10)) + (c + n) }; println_i64(o.m0); println_i64(o.m1(5)); println_i64(o.m3(1, 2, 3)); 0 }".into()),
         ("lpair", "codata LPair[A, B] { lfst: A, lsnd: B }\ndef swap(p: LPair[i64, i64]): LPair[i64, i64] { new { lfst => p.lsnd[i64, i64], lsnd => p.lfst[i64, i64] } }\ndef main(n: i64): i64 { let p: LPair[i64, i64] = swap(new { lfst => n, lsnd => n + 1 }); println_i64(p.lfst[i64, i64]); println_i64(p.lsnd[i64, i64]); 0 }".into()),
         ("closure_in_list", "data FL { FNil, FCons(f: Fun[i64, i64], r: FL) }\ndef apply_all(l: FL, v: i64): i64 { l.case { FNil => v, FCons(f, r) => apply_all(r, f.ap[i64, i64](v)) } }\ndef main(n: i64): i64 { println_i64(apply_all(FCons(new { ap(q) => q + n }, FCons(new { ap(q) => q * 3 }, FNil)), 2)); 0 }".into()),
+        ("self_application", "codata Rec { run(o: Rec, k: i64): i64 }\ndef main(n: i64): i64 { let d: i64 = n + 40; let o: Rec = new { run(o2, k) => if k <= 0 { d } else { o2.run(o2, k - 1) } }; println_i64(o.run(o, n)); println_i64(o.run(new { run(o3, k) => k * 2 }, 5)); 0 }".into()),
+        ("self_application_pair", "codata Rec { run(o: Rec, p: Rec, k: i64): i64 }\ndef main(n: i64): i64 { let a1: i64 = n * 3; let o: Rec = new { run(q, r, k) => if k <= 0 { a1 } else { r.run(r, q, k - 1) } }; let u: Rec = new { run(q, r, k) => k + a1 }; println_i64(o.run(o, u, 1)); println_i64(o.run(u, o, 2)); println_i64(o.run(o, o, n)); 0 }".into()),
         ("capture_many", "def main(n: i64): i64 { let a1: i64 = n + 1; let a2: i64 = n + 2; let a3: i64 = n + 3; let a4: i64 = n + 4; let a5: i64 = n + 5; let l: List[i64] = range(3); let f: Fun[i64, i64] = new { ap(q) => ((((q + a1) + a2) + a3) + a4) + (a5 + sum(l)) }; println_i64(f.ap[i64, i64](100)); println_i64(f.ap[i64, i64](200)); println_i64(sum(l)); 0 }".into()),
     ];
     for (name, body) in progs {
